@@ -32,6 +32,7 @@ static nng_err  kres[MAXU];     /* result as reported at completion */
 /* operations that had to wait (blocked senders / receivers): which waiter queue they joined and when */
 static int kwait_q[MAXU], kwait_seq[MAXU], kwait_served[MAXU], kwait_clock;
 static void kwait_check(void);
+static void monitor(void);
 static void
 kquiesce(void)
 {
@@ -124,6 +125,38 @@ extern int env_idmap_fail_at, env_idmap_inserts;
 		env_msg_failed   = 0; \
 		env_idmap_failed = 0; \
 	} while (0)
+/* a buffer resize under an allocation fault: KQ_SNAP before the call, KQ_FAULT_RESULT after it.  A resize that reports
+ * NNG_ENOMEM must leave depth, contents and order of the queue as they were (then the skeleton goes on with the
+ * functional checks in full force); one that cannot report it any other way must not pretend success */
+#define KQ_SNAP(q)                                                                                                  \
+	size_t ksn_len = (q)->lmq_len, ksn_cap = (q)->lmq_cap;                                                      \
+	int    ksn_id[8];                                                                                           \
+	for (size_t ksn_k = 0; ksn_k < 8; ksn_k++)                                                                  \
+		ksn_id[ksn_k] = ksn_k < ksn_len ? (q)->lmq_msgs[((q)->lmq_get + ksn_k) & (q)->lmq_mask]->id : 0;
+#ifdef VH_FAULTPASS
+#define KQ_FAULT_RESULT(rv, q)                                                                                                          \
+	do {                                                                                                                            \
+		SCHECK((rv) == 0 || (rv) == NNG_ENOMEM, "C20: a buffer resize succeeds or reports NNG_ENOMEM");                            \
+		SCHECK(((rv) == NNG_ENOMEM) == (VH_FAULT_FIRED != 0), "C20: it reports NNG_ENOMEM exactly when its allocation failed");    \
+		if ((rv) == NNG_ENOMEM) {                                                                                               \
+			SCHECK((q)->lmq_len == ksn_len && (q)->lmq_cap == ksn_cap, "C20: a resize that failed keeps depth and contents");  \
+			for (size_t ksn_k = 0; ksn_k < 8; ksn_k++)                                                                      \
+				if (ksn_k < ksn_len)                                                                                    \
+					SCHECK((q)->lmq_msgs[((q)->lmq_get + ksn_k) & (q)->lmq_mask]->id == ksn_id[ksn_k],                  \
+					    "C20: a resize that failed keeps the queued messages in order");                            \
+			WITNESS("resize failed cleanly");                                                                               \
+			KFAULT_ABSORBED();                                                                                              \
+			monitor();                                                                                                      \
+			return;                                                                                                         \
+		}                                                                                                                       \
+	} while (0)
+#else
+#define KQ_FAULT_RESULT(rv, q) \
+	do {                   \
+		(void) ksn_id; \
+		(void) ksn_cap; \
+	} while (0)
+#endif
 #define KNEED(cond)            \
 	do {                   \
 		if (!(cond)) { \
